@@ -245,6 +245,7 @@ func (ex *Exec) runPath(entry *ssa.Function, w workItem, conc *Violation) (p *Pa
 	ex.depth = 0
 	ex.sched = nil
 	ex.curG = nil
+	ex.pools = nil
 	if ex.goMode == "sched" {
 		ex.sched = newScheduler(ex)
 		defer ex.sched.shutdown()
